@@ -55,8 +55,17 @@ impl Cfg {
 }
 
 /// All valid k-nearest index sets for the distances `d` (every point strictly closer than the k-th
-/// distance, completed by any choice among the points exactly at the k-th distance).
-fn valid_sets(d: &[f64], k: usize) -> Vec<Vec<usize>> {
+/// distance, completed by any choice among the points exactly at the k-th distance), enumerated
+/// lazily in increasing order of the tie mask.
+struct ValidSets {
+    below: Vec<usize>,
+    tie: Vec<usize>,
+    /// number of tied points every set takes
+    m: usize,
+    mask: u32,
+}
+
+fn valid_sets(d: &[f64], k: usize) -> ValidSets {
     let n = d.len();
     let mut s = d.to_vec();
     s.sort_by(|a, b| a.partial_cmp(b).unwrap());
@@ -64,22 +73,37 @@ fn valid_sets(d: &[f64], k: usize) -> Vec<Vec<usize>> {
     let below: Vec<usize> = (0..n).filter(|&i| d[i] < dk).collect();
     let tie: Vec<usize> = (0..n).filter(|&i| d[i] == dk).collect();
     let m = k - below.len();
-    let mut out = Vec::new();
-    let t = tie.len();
-    assert!(t <= 20);
-    for mask in 0u32..(1 << t) {
-        if mask.count_ones() as usize != m {
-            continue;
-        }
-        let mut set = below.clone();
-        for (b, &i) in tie.iter().enumerate() {
-            if mask >> b & 1 == 1 {
-                set.push(i);
-            }
-        }
-        out.push(set);
+    assert!(tie.len() <= 20);
+    ValidSets { below, tie, m, mask: 0 }
+}
+
+impl ValidSets {
+    /// more than one valid set exists
+    fn many(&self) -> bool {
+        self.m > 0 && self.m < self.tie.len()
     }
-    out
+}
+
+impl Iterator for ValidSets {
+    type Item = Vec<usize>;
+    fn next(&mut self) -> Option<Vec<usize>> {
+        let t = self.tie.len();
+        while self.mask < (1u32 << t) {
+            let mask = self.mask;
+            self.mask += 1;
+            if mask.count_ones() as usize != self.m {
+                continue;
+            }
+            let mut set = self.below.clone();
+            for (b, &i) in self.tie.iter().enumerate() {
+                if mask >> b & 1 == 1 {
+                    set.push(i);
+                }
+            }
+            return Some(set);
+        }
+        None
+    }
 }
 
 /// Reference weights of a neighbour set (an exact-match neighbour takes all the weight under
@@ -105,11 +129,12 @@ struct RowVerdict {
 
 fn judge_row(kind: Kind, d: &[f64], y: &[f64], classes: &[f64], cfg: &Cfg, pred: f64, tol: f64) -> RowVerdict {
     let sets = valid_sets(d, cfg.k);
-    let mut v = RowVerdict { ok: false, expected: String::new(), many_sets: sets.len() > 1, plurality_tie: false, exact_match: false };
+    let mut v = RowVerdict { ok: false, expected: String::new(), many_sets: sets.many(), plurality_tie: false, exact_match: false };
     // the first valid set that explains the prediction ends the search (flags then describe the
     // sets looked at so far); all sets are rendered only for a violation
     let mut votes: Vec<f64> = vec![0.0; classes.len()];
-    for set in &sets {
+    for set in sets {
+        let set = &set;
         let w = weights(d, set, cfg.distance_weighted);
         if cfg.distance_weighted && set.iter().any(|&i| d[i] == 0.0) {
             v.exact_match = true;
@@ -149,7 +174,8 @@ fn judge_row(kind: Kind, d: &[f64], y: &[f64], classes: &[f64], cfg: &Cfg, pred:
     }
     // violation: render what would have been acceptable
     let mut exp: Vec<String> = Vec::new();
-    for set in &sets {
+    for set in valid_sets(d, cfg.k) {
+        let set = &set;
         let w = weights(d, set, cfg.distance_weighted);
         let wsum: f64 = w.iter().sum();
         match kind {
